@@ -739,6 +739,22 @@ def fmt_Sprintf(ex, st, frame, ins, args):
     return Val('string', [r])
 
 
+def fmt_Printf(ex, st, frame, ins, args):
+    """output is not modelled; the arguments of the latest call on the path are kept for the spec function
+    printedis(j, e) (the j-th operand of the latest fmt.Printf is the boxed value of e)"""
+    m = ex.m
+    ex.events_add(st, 'print', args, ins)
+    fmtv, rest = args[0], args[1]
+    elems = None
+    ln = z3.simplify(rest.leaves[2]) if len(rest.leaves) == 3 else None
+    if ln is not None and z3.is_int_value(ln) and ln.as_long() <= 16:
+        E = m.elem(rest.t)
+        arr, off, _ = rest.leaves
+        elems = [ex.load(st, Ptr('elem', E, '', arr, add0(off, z3.IntVal(i))), E).leaves[0] for i in range(ln.as_long())]
+    st.last_print = (fmtv.leaves[0], elems)
+    return opaque_result(ex, st, ins, 'fmt.Printf (result)')
+
+
 def fmt_Errorf(ex, st, frame, ins, args):
     m = ex.m
     return Val('error', [m.Any.other(z3.IntVal(2), m.fresh('errorf', m.Int))])
@@ -961,6 +977,7 @@ TABLE = {
     'fmt.Sprintf': fmt_Sprintf,
     'fmt.Sprint': fmt_Sprintf,
     'fmt.Errorf': fmt_Errorf,
+    'fmt.Printf': fmt_Printf,
     'unicode/utf8.RuneCountInString': utf8_RuneCountInString,
     'math.Pow10': math_Pow10,
     'context.Background': context_Background,
